@@ -543,4 +543,39 @@ theorem five_point_stored_exact (f : List ℝ → ℝ) (w : W ℝ) (params : PLi
     push_cast at this ⊢
     rw [this]
 
+
+/-! ## 8. What the two-point wrapper stores, end to end (nominal path) -/
+
+/-- the stored two-point derivative is the difference quotient between the requested point and the
+point with that coordinate moved by `-(1 + |x|) h`; it is the analytical derivative when `f` is
+affine in the selected variable, and off by `-c (1 + |x|) h` on a quadratic `… + c t²` -/
+theorem two_point_stored_exact (f : List ℝ → ℝ) (w : W ℝ) (params : PList ℝ) (hown : Own w.fn) (hok : w.fn.OK f)
+    (hF : Free f params w.fn.params) (hpnd : (names params).Nodup) (hc1 : w.c1 = true)
+    (hvars : w.vars.Nodup) (hin : ∀ v ∈ w.vars, has params v = true → v ∈ names w.fn.params) (hh : w.h ≠ 0)
+    (hl1 : w.der1.length = w.vars.length)
+    (k : Nat) (hk : k < w.vars.length) (hhk : has params w.vars[k] = true)
+    (b : Param ℝ) (hb : find? w.fn.params w.vars[k] = some b) (a0 a1 a2 : ℝ)
+    (hquad : ∀ t, f (values (upd1 w.fn.params w.vars[k] t)) = a0 + a1 * t + a2 * t ^ 2) :
+    (update2 f w params).2 = none ∧
+    (update2 f w params).1.der1[k]? = some (some ((a1 + 2 * a2 * b.value) + a2 * (-(1 + |b.value|) * w.h))) := by
+  obtain ⟨h0, h⟩ := update2_free f w params hown hok hF hpnd hc1 hvars hin hh hl1
+  refine ⟨h0, ?_⟩
+  rw [h k hk hhk]
+  have hne : -(Scalar.one + Scalar.abs b.value) * w.h ≠ 0 := by
+    simp only [ScalarReal.one_eq, ScalarReal.abs_eq]
+    have : (1 + |b.value|) ≠ 0 := by positivity
+    exact mul_ne_zero (neg_ne_zero.mpr this) hh
+  have hbase : f (values w.fn.params) = a0 + a1 * b.value + a2 * b.value ^ 2 := by
+    rw [← hquad b.value]
+    congr 2
+    symm
+    apply upd1_same
+    intro p hp hn
+    have := find?_of_mem hown.1 hp
+    rw [hn, hb] at this; injection this with this; rw [this]
+  simp only [two1, hb, hquad, hbase]
+  have := two_point_remainder_deg2 a0 a1 a2 b.value (-(Scalar.one + Scalar.abs b.value) * w.h) hne
+  rw [this]
+  simp only [ScalarReal.one_eq, ScalarReal.abs_eq]
+
 end Bpp.C12
